@@ -131,8 +131,13 @@ def gen_value_case(ch):
             # values that agree after rounding but not as numbers, next to a missing one
             k = base_k
         else:
-            k = ch.weighted([(2, -2), (3, -1), (3, 0), (2, 1), (3, top // 2), (3, top - 1), (4, top), (3, top + 1), (2, top + 2),
-                             (4, ch.int(0, max(0, top - 1)))])
+            ks = [(2, -2), (3, -1), (3, 0), (2, 1), (3, top // 2), (3, top - 1), (4, top), (3, top + 1), (2, top + 2),
+                  (4, ch.int(0, max(0, top - 1)))]
+            if el.nbits < f.nbits:
+                # a widened field: the all-ones pattern of the element's Table B width is an ordinary value here
+                t = (1 << el.nbits) - 1
+                ks += [(4, t), (1, t - 1), (1, t + 1)]
+            k = ch.weighted(ks)
             base_k = k
         if ch.bool(1, 8) and f.nbits > 1:
             inputs.append(None)
